@@ -135,7 +135,19 @@ def corrupt_stats(recs):
     return i
 
 
-SUITES = [("todo", corrupt_todo), ("arch", corrupt_arch), ("fronts", corrupt_fronts), ("deps", corrupt_deps),
+def corrupt_frontsderive(recs):
+    i = _first(recs, lambda r: r.get("accepts") and not r["observed"]["panic"])
+    recs[i]["observed"]["panic"] = True
+    return i
+
+
+def corrupt_javashapes(recs):
+    i = _first(recs, lambda r: r.get("valid") and r["observed"] and not r["observed"][0]["panic"])
+    recs[i]["observed"][0]["panic"] = True
+    return i
+
+
+SUITES = [("frontsderive", corrupt_frontsderive), ("javashapes", corrupt_javashapes), ("todo", corrupt_todo), ("arch", corrupt_arch), ("fronts", corrupt_fronts), ("deps", corrupt_deps),
           ("badsmell", corrupt_badsmell), ("testsmell", corrupt_testsmell), ("cloc", corrupt_cloc), ("stats", corrupt_stats),
           ("callgraph", corrupt_callgraph), ("springapi", corrupt_springapi), ("javamodel", corrupt_javamodel),
           ("gitlog", corrupt_gitlog), ("rename", corrupt_rename), ("unusedimport", corrupt_unusedimport)]
